@@ -223,6 +223,7 @@ type World struct {
 	Daemon   *vsched.Daemon
 	TrigLog  map[string]*[]TrigEvent
 	Poisoned bool // a panic happened inside the collection: never touch it again
+	OwnReads bool // inside a body, re-read what was just written: must still be the committed value
 	Bulk     map[uint32]bool
 	ch       commit.Channel
 	tick     chan time.Time
@@ -407,6 +408,10 @@ type TxnRes struct {
 	Err      error
 	Viol     []eng.Violation
 	Panic    any
+	Blocks   []uint32 // blocks in which the transaction buffered at least one operation (committed transactions only)
+	Emitted  int      // number of commits that reached the logger during the transaction
+
+	emittedBase int
 }
 
 type pendWrite struct {
@@ -474,6 +479,9 @@ func (w *World) body(acts []Act, fail bool, p *pending, res *TxnRes) func(txn *c
 			case "put":
 				if err := txn.QueryAt(a.Off, func(r column.Row) error {
 					w.applyWrites(txn, r, a.Off, a.W, p)
+					if w.OwnReads {
+						w.ownReads(r, a.Off, a.W, res)
+					}
 					return nil
 				}); err != nil {
 					return err
@@ -615,6 +623,31 @@ func (w *World) body(acts []Act, fail bool, p *pending, res *TxnRes) func(txn *c
 	}
 }
 
+// ownReads re-reads, inside the body, the columns just written: a transaction's own
+// reads keep returning the committed values until it commits.
+func (w *World) ownReads(r column.Row, off uint32, ws []Write, res *TxnRes) {
+	row := w.M.Live[off]
+	if row == nil {
+		return
+	}
+	for _, x := range ws {
+		col := x.Col
+		if x.SetTTL || x.Extend {
+			col = ExpireCol
+		}
+		k := w.M.Col(col)
+		if k == nil || k.IsKey {
+			continue
+		}
+		got, ok := k.Read(r, col)
+		want, wok := row.V[col]
+		if ok != wok || (ok && got != want) {
+			res.Viol = append(res.Viol, eng.Violation{Assert: "atomic/own-read", Witness: "a read inside the body returns something other than the committed value",
+				Detail: fmt.Sprintf("row %d column %q read inside the body after writing it: %s/%v, committed %s/%v", off, col, k.Show(got), ok, k.Show(want), wok)})
+		}
+	}
+}
+
 func (p *pending) dropWritesAt(off uint32) {
 	out := p.writes[:0]
 	for _, x := range p.writes {
@@ -644,6 +677,8 @@ func (w *World) noteInsert(off uint32, p *pending, res *TxnRes) {
 // the same changes to the model.
 func (w *World) Txn(acts []Act, fail bool) (res TxnRes) {
 	var p pending
+	w.Drain()
+	res.emittedBase = len(w.Commits)
 	func() {
 		defer func() {
 			if r := recover(); r != nil {
@@ -659,9 +694,31 @@ func (w *World) Txn(acts []Act, fail bool) (res TxnRes) {
 	}
 	if res.Err == nil {
 		w.ApplyPending(&p)
+		res.Blocks = p.blocks()
 	}
 	w.Drain()
+	res.Emitted = len(w.Commits) - res.emittedBase
 	return res
+}
+
+// blocks lists, ascending, the blocks in which operations were buffered.
+func (p *pending) blocks() []uint32 {
+	m := map[uint32]bool{}
+	for _, o := range p.ins {
+		m[o>>14] = true
+	}
+	for _, o := range p.del {
+		m[o>>14] = true
+	}
+	for _, x := range p.writes {
+		m[x.off>>14] = true
+	}
+	out := make([]uint32, 0, len(m))
+	for b := range m {
+		out = append(out, b)
+	}
+	sort.Slice(out, func(i, j int) bool { return out[i] < out[j] })
+	return out
 }
 
 // ApplyPending applies the effects of a committed transaction to the model in the
@@ -840,3 +897,6 @@ func (w *World) ReplayInto(t *World, from int) error {
 	}
 	return nil
 }
+
+// RecErr reports a failure of the recording logger's own round trip.
+func (w *World) RecErr() error { return w.recErr }
